@@ -180,6 +180,7 @@ func Plan(tier string, seed uint64) []Cfg {
 			c.Quantum = 1100
 		}
 		c.Policy = genPolicy(r, 2000)
+		c.Windowed = r.Intn(2) == 0
 		out = append(out, c)
 	}
 	return out
@@ -348,6 +349,9 @@ func TestBatch(t *testing.T) {
 			}
 			res.Probes[fmt.Sprintf("quantum-%d", c.Quantum)]++
 			res.Probes["policy-"+c.Policy.Kind]++
+			if c.Windowed {
+				res.Probes["inputs-are-windows-of-one-buffer"]++
+			}
 			if len(c.Tasks) > 8 {
 				res.Probes["more-than-8-callers"]++
 			}
